@@ -177,7 +177,7 @@ Lemma ins_child_m o p c index (t : itree) l l1 fr tm0 (out : out) :
   match Conc.find p t, Conc.find c t with
   | Some (INode pi cs), Some child =>
     '(sep, _) <- get_nth index cs ;;
-    sep' <- (if index =? 0 then sm <- ismallest child ;; Ok (if ltb (key_of o) sm then key_of o else sep) else Ok sep) ;;
+    sep' <- Ok (if index =? 0 then (if ltb (key_of o) sep then key_of o else sep) else sep) ;;
     match isplit order fr child with
     | None =>
       t' <- upd p (fun _ => Ok (INode pi (set_nth index (sep', child) cs))) t ;;
@@ -196,7 +196,7 @@ Proof.
   destruct (Conc.find p t) as [[?|pi cs]|]; try discriminate H.
   destruct (Conc.find c t) as [child|]; [|discriminate H].
   destruct (get_nth index cs) as [[sep ?]|]; [cbn [bind] in H|discriminate H].
-  match type of H with bind ?e _ = _ => destruct e as [sep'|]; [cbn [bind] in H|discriminate H] end.
+  cbn [bind] in H.
   destruct (isplit order fr child) as [[lft rgt]|].
   - destruct (ismallest rgt) as [rs|]; [cbn [bind] in H|discriminate H].
     match type of H with bind ?e _ = _ => destruct e as [t'|]; [cbn [bind] in H|discriminate H] end.
